@@ -168,7 +168,9 @@ func opScenario(r *Run, mode string) {
 	keyWithoutTime := mode == "C18" && opNames[op] == "custom_trigger_group_by" && !tcfg.watermark && hdr.Chance(1, 2)
 
 	script := GenChangelog(t.Block(stepBlock*maxSteps+10), ChangelogCfg{MaxSteps: maxSteps, Watermarked: watermarked, Retractions: true, Dups: true,
-		Row: opRow, FinalWM: true, RetractSameTime: !keyWithoutTime, ZeroTimeMix: true})
+		Row: opRow, FinalWM: true, RetractSameTime: !keyWithoutTime, ZeroTimeMix: true,
+		// a late insertion is still a valid changelog entry (C15 does not presuppose "no late data"; C18 does)
+		LateRecords: mode == "C15"})
 	var lookupRows [][]octosql.Value
 	if opNames[op] == "lookup_join" {
 		lb := t.Block(20)
@@ -255,6 +257,13 @@ func opScenario(r *Run, mode string) {
 		recs := make([]execution.Record, len(lookupRows))
 		for i := range lookupRows {
 			recs[i] = execution.NewRecord(lookupRows[i], false, time.Time{})
+		}
+		if len(lookupRows) > 0 && hdr.Chance(1, 2) {
+			// the looked-up stream is a changelog too: it delivers a row, takes it back, and goes on
+			// (net effect none); the join must combine the signs of both sides
+			extra := []octosql.Value{lookupRows[0][0], idv("jx", 0)}
+			recs = append([]execution.Record{execution.NewRecord(extra, false, time.Time{}), execution.NewRecord(extra, true, time.Time{})}, recs...)
+			attrs["lookup_side"] = "retracts"
 		}
 		// joined side: rows whose key equals the source record's a (variable one level up)
 		joined := nodes.NewFilter(nodes.NewInMemoryRecords(recs),
